@@ -15,7 +15,6 @@ use crate::extension::NostrGroupDataExtension;
 use crate::util::{ContentEncoding, decode_content};
 
 /// Welcome preview
-#[derive(Debug)]
 pub struct WelcomePreview {
     /// Staged welcome
     pub staged_welcome: StagedWelcome,
@@ -24,12 +23,32 @@ pub struct WelcomePreview {
 }
 
 /// Joined group result
-#[derive(Debug)]
 pub struct JoinedGroupResult {
     /// MLS group
     pub mls_group: MlsGroup,
     /// Nostr data
     pub nostr_group_data: NostrGroupDataExtension,
+}
+
+// Manual `Debug` impls: both types hold the MLS group state and the group data extension
+// (group ids, image key material), which must never be printed (see SECURITY.md).
+
+impl std::fmt::Debug for WelcomePreview {
+    fn fmt(&self, f: &mut std::fmt::Formatter<'_>) -> std::fmt::Result {
+        f.debug_struct("WelcomePreview")
+            .field("staged_welcome", &"[REDACTED]")
+            .field("nostr_group_data", &"[REDACTED]")
+            .finish()
+    }
+}
+
+impl std::fmt::Debug for JoinedGroupResult {
+    fn fmt(&self, f: &mut std::fmt::Formatter<'_>) -> std::fmt::Result {
+        f.debug_struct("JoinedGroupResult")
+            .field("mls_group", &"[REDACTED]")
+            .field("nostr_group_data", &"[REDACTED]")
+            .finish()
+    }
 }
 
 impl<Storage> MDK<Storage>
